@@ -37,6 +37,8 @@ type StepCfg struct {
 	Repeat     bool     `json:"repeat,omitempty"`
 	RepeatMs   int      `json:"repeatMs,omitempty"`
 	SigOnStop  string   `json:"signalOnStop,omitempty"`
+	DurMs      int      `json:"durMs,omitempty"` // every attempt takes this long (virtual time)
+	Met        bool     `json:"met,omitempty"`   // has a precondition that is met
 }
 
 // Config is one program + environment of the scheduler-level harness.
@@ -88,6 +90,12 @@ func (c *Config) String() string {
 		}
 		if s.Hang {
 			at = append(at, "hang")
+		}
+		if s.DurMs != 0 {
+			at = append(at, fmt.Sprintf("dur%dms", s.DurMs))
+		}
+		if s.Met {
+			at = append(at, "met")
 		}
 		if s.IgnoreTerm {
 			at = append(at, "ignTERM")
@@ -237,13 +245,15 @@ func buildSteps(cfg *Config) ([]dag.Step, map[string]*vexec.Script) {
 		}
 		if s.Unmet {
 			st.Preconditions = []dag.Condition{{Condition: "0", Expected: "1"}}
+		} else if s.Met {
+			st.Preconditions = []dag.Condition{{Condition: "1", Expected: "1"}}
 		}
 		if s.Repeat {
 			st.RepeatPolicy = dag.RepeatPolicy{Repeat: true, Interval: time.Duration(s.RepeatMs) * time.Millisecond}
 		}
 		st.SignalOnStop = s.SigOnStop
 		steps = append(steps, st)
-		scripts[s.Name] = &vexec.Script{Fail: s.Fail, CreateFail: s.CreateFail, Hang: s.Hang, IgnoreTerm: s.IgnoreTerm, OutBytes: cfg.OutBytes}
+		scripts[s.Name] = &vexec.Script{Fail: s.Fail, CreateFail: s.CreateFail, Hang: s.Hang, IgnoreTerm: s.IgnoreTerm, OutBytes: cfg.OutBytes, DurMs: s.DurMs}
 	}
 	for h, beh := range cfg.Handlers {
 		sc := &vexec.Script{}
@@ -302,6 +312,7 @@ func (r *runner) once(cfg *Config, prefix []int, trace func(string)) (*Exec, *re
 		x.Events = append(x.Events, Ev{Event: e, Thread: vrt.CurID(), Canceled: c})
 	}
 	vexec.WaitHook = func(step string, cond func() bool) { vrt.Point(vrt.KWait, step, cond, true) }
+	vexec.SleepHook = func(ms int) { vrt.Effect(); vrt.Sleep(time.Duration(ms) * time.Millisecond) }
 	vexec.YieldHook = func(what string) { vrt.Point(vrt.KYield, what, nil, false) }
 	vrt.ResetChans()
 	vrt.OnWake = func(th int) {
